@@ -374,10 +374,14 @@ def refForm : FormCodec where
   ser := formSerialize
   parse := formParse
   text := fun s => utf8Valid s = true
+
+/-- The reference codec satisfies the laws the `FormCodec` parameter is assumed to satisfy. -/
+theorem refForm_lawful : refForm.Lawful where
   law := by
     intro ps hps
     have hb : ∀ p ∈ ps, IsBytes p.1 ∧ IsBytes p.2 :=
       fun p hp => ⟨utf8Valid_bytes _ (hps p hp).1, utf8Valid_bytes _ (hps p hp).2⟩
+    show formParse (formSerialize ps) = ps
     unfold formParse
     rw [formParseBytes_formSerialize ps hb]
     have : ∀ p ∈ ps, (fun p : Str × Str => (utf8Lossy p.1, utf8Lossy p.2)) p = id p := by
